@@ -4,6 +4,7 @@ import Rustemo.Proofs.GlrLayout
 import Rustemo.Proofs.GlrEnum
 import Rustemo.Proofs.GlrExample
 import Rustemo.Proofs.GlrCompleteDefs
+import Rustemo.Proofs.GlrPush3
 /-!
 # C03 — the GLR forest contains exactly the derivation trees of the input
 
@@ -138,15 +139,16 @@ theorem C03_engine_no_panic_certified (env : Env) (hcert : Cert.glr env.g env.t 
     and the completeness certificate `Cert.completeRN` (lookahead post-fixpoint: closure and transitions as in
     `Cert.complete`; EVERY right-nulled reduction present for each lookahead of its item; at most one shift per
     cell), under the token-level lexer hypothesis `LexDet`: if the token kinds are a sentence, the engine does not
-    report an error, and every forest it returns contains every derivation tree of the sentence modulo elision
-    (`Tree.EqElide`). -/
+    report an error, and every (acyclic: unfolding not cut) forest it returns contains every derivation tree of the
+    sentence modulo elision (`Tree.EqElide`). -/
 def C03_engine_complete_statement : Prop :=
   ∀ (env : Env), Cert.glr env.g env.t = true → Cert.completeRN env.g env.t = true →
   ∀ (partialParse : Bool) (fuel n : Nat) (tok : Nat → Tok) (P L : Nat → Pos),
     LexDet env partialParse fuel n tok P L →
   ∀ (full : Tree), full.Valid env.g env.g.startIdx → full.yield = (List.range n).map (fun i => (tok i).kind) →
     (∀ e, Glr.parse env partialParse fuel ≠ .err e) ∧
-    ∀ r, Glr.parse env partialParse fuel = .ok r → ∃ i tr, r.getTree i = some tr ∧ Tree.EqElide full tr
+    ∀ r, Glr.parse env partialParse fuel = .ok r → r.droots.hasCut = false →
+      ∃ i tr, r.getTree i = some tr ∧ Tree.EqElide full tr
 
 /-- **(c) No duplicates, full statement** (NOT proved): two different indices never give the same tree modulo
     elision. -/
@@ -180,6 +182,34 @@ theorem C03_engine_reduction_closure (env : Env) (hcert : Cert.glr env.g env.t =
   obtain ⟨hC, hW⟩ := Cert.completeRN_sound _ _ hcomp
   obtain ⟨k1, _, k3, k4, k5⟩ := reducerLoop_closure (tableOk_of_cert env hcert) hC hW fuel rs rs' hI hU hq hrc h
   exact ⟨k1, k3, k4, k5⟩
+
+/-- **(d), second proved part: completeness FROM the closure properties** (the forward induction over the
+    derivation tree, Jourdan–Pottier–Leroy's `push_tree` / `push_list` carried out on the graph structured stack).
+    Let `r` be a result of the engine on a certified table and suppose that in its graph every level `k ≤ n` is
+    *done* (`LevelDone`: the sub-frontier `subs k` is closed under reductions — the conclusion of
+    `C03_engine_reduction_closure` —, every shift on `tok k` from it was performed, every head of level `k` whose
+    state is alive on `tok k` belongs to it), the start head is in `subs 0`, `tok n` is STOP, and the heads of
+    `subs n` that accept on STOP contribute their possibilities to the roots.  Then EVERY derivation tree of the
+    token kinds `tok 0 … tok (n-1)` from the start symbol is returned by `getTree` modulo elision (`Tree.EqElide`),
+    provided the unfolding is not cut (acyclic SPPF).  Uses the liveness lemma (`live_list`: a state holding an item
+    whose rest can start with `a` has an action on `a`, so "no actions ⇒ skip" never drops a needed reduction).
+    What is NOT proved is that the run establishes `LevelDone` for every level (under `LexDet`). -/
+theorem C03_engine_complete_from_closure (env : Env) (hcert : Cert.glr env.g env.t = true)
+    (hcomp : Cert.completeRN env.g env.t = true) (partialParse : Bool) (fuel : Nat) (r : GlrResult)
+    (h : Glr.parse env partialParse fuel = .ok r) (hc : r.droots.hasCut = false)
+    (tok : Nat → Tok) (n : Nat) (subs : Nat → SubFrontier)
+    (hdone : ∀ k, k ≤ n → LevelDone env r.gss tok k (subs k)) (hstart : (0, 0) ∈ subs 0)
+    (hstop : (tok n).kind = 0)
+    (hacc : ∀ (s v : Nat), (s, v) ∈ subs n → Action.accept ∈ env.t.cell s 0 →
+      ∀ (e : Nat) (ed : Edge), r.gss.edges[e]? = some ed → ed.src = v → ∀ m ∈ ed.poss, m ∈ r.roots)
+    (full : Tree) (hv : full.Valid env.g env.g.startIdx) (hy : full.yield = kindsOf tok 0 n) :
+    ∃ i tr, r.getTree i = some tr ∧ Tree.EqElide full tr := by
+  obtain ⟨hC, hW⟩ := Cert.completeRN_sound _ _ hcomp
+  have hr := Glr.parse_sound env hcert partialParse fuel r h
+  obtain ⟨s', v, e, ed, m, k, tr, k1, k2, k3, k4, _, k6, k7, k8⟩ :=
+    accept_of_allDone ⟨tableOk_of_cert env hcert, hC, hW, hr.g, hdone⟩ hstart hstop full hv hy
+  obtain ⟨i, hi⟩ := getTree_of_root hr hc (hacc s' v k1 k2 e ed k3 k4 m k6) k7
+  exact ⟨i, tr, hi, k8⟩
 
 /-- non-vacuity of the certificates of the closure theorem: the real LALR_RN table of the example grammar -/
 example : Cert.completeRN Glr.Example.g Glr.Example.t = true := by decide +kernel
